@@ -83,6 +83,63 @@ pub unsafe extern "C" fn getenv(name: *const c_char) -> *mut c_char {
     f(name)
 }
 
+// ---------------------------------------------------------------------------------------------
+// simulated time (seam S1c): `clock_gettime` is interposed; a replica thread's clock = real clock + skew,
+// and the skew only moves when the simulator says that time has passed (a slow byte source)
+// ---------------------------------------------------------------------------------------------
+
+thread_local! {
+    static CLOCK_SKEW_NS: Cell<i128> = const { Cell::new(0) };
+    static CLOCK_READS: Cell<u64> = const { Cell::new(0) };
+}
+
+#[repr(C)]
+pub struct Timespec {
+    tv_sec: i64,
+    tv_nsec: i64,
+}
+
+/// # Safety
+/// libc contract of clock_gettime(2)
+#[no_mangle]
+pub unsafe extern "C" fn clock_gettime(clk: i32, ts: *mut Timespec) -> i32 {
+    static REAL: std::sync::atomic::AtomicUsize = std::sync::atomic::AtomicUsize::new(0);
+    let mut real = REAL.load(std::sync::atomic::Ordering::Relaxed);
+    if real == 0 {
+        real = dlsym(usize::MAX as *mut c_void, c"clock_gettime".as_ptr()) as usize;
+        REAL.store(real, std::sync::atomic::Ordering::Relaxed);
+    }
+    if real == 0 {
+        return -1;
+    }
+    let f: unsafe extern "C" fn(i32, *mut Timespec) -> i32 = std::mem::transmute(real);
+    let rc = f(clk, ts);
+    // wall clocks and monotonic clocks of every flavour; CPU-time clocks (2, 3) are left alone
+    if rc == 0 && !ts.is_null() && matches!(clk, 0 | 1 | 4 | 5 | 6 | 7) {
+        let on_replica = ENTROPY.try_with(|e| e.get().is_some()).unwrap_or(false);
+        if on_replica {
+            let _ = CLOCK_READS.try_with(|c| c.set(c.get() + 1));
+            let skew = CLOCK_SKEW_NS.try_with(|c| c.get()).unwrap_or(0);
+            if skew != 0 {
+                let total = (*ts).tv_sec as i128 * 1_000_000_000 + (*ts).tv_nsec as i128 + skew;
+                (*ts).tv_sec = (total / 1_000_000_000) as i64;
+                (*ts).tv_nsec = (total % 1_000_000_000) as i64;
+            }
+        }
+    }
+    rc
+}
+
+/// simulated time passes on this thread (called by a slow byte source)
+pub fn advance_clock(secs: u64) {
+    CLOCK_SKEW_NS.with(|c| c.set(c.get() + secs as i128 * 1_000_000_000));
+}
+
+/// how often the code running on this thread read a clock
+pub fn clock_reads() -> u64 {
+    CLOCK_READS.with(|c| c.get())
+}
+
 /// names of environment variables the code under test asked for on this thread
 pub fn env_seen() -> Vec<String> {
     ENV_SEEN.with(|s| s.borrow().clone())
@@ -200,5 +257,19 @@ pub fn canary() -> Result<String, String> {
     if orders.len() < 2 {
         return Err("entropy seam dead: 16 entropies gave a single HashMap order".into());
     }
-    Ok(format!("live: {} distinct 5-key orders over 16 entropies, 1 getrandom call per thread", orders.len()))
+    // clock seam: simulated time must be what Instant and SystemTime see on a replica thread, and only there
+    let (jump, _) = with_entropy(7, || {
+        let a = std::time::Instant::now();
+        let w = std::time::SystemTime::now();
+        advance_clock(3_600);
+        (a.elapsed().as_secs(), w.elapsed().map(|d| d.as_secs()).unwrap_or(0))
+    })?;
+    if jump.0 < 3_600 || jump.0 > 3_700 || jump.1 < 3_600 {
+        return Err(format!("clock seam dead: after advancing simulated time by 3600 s the thread saw {jump:?} s"));
+    }
+    let here = std::time::Instant::now();
+    if here.elapsed().as_secs() > 60 {
+        return Err("clock seam leaks into the harness thread".into());
+    }
+    Ok(format!("live: {} distinct 5-key orders over 16 entropies, 1 getrandom call per thread; simulated clock visible to Instant and SystemTime", orders.len()))
 }
